@@ -55,11 +55,11 @@ type varState struct {
 }
 
 type hbState struct {
-	vars     map[interface{}]*varState
-	races    map[string]bool
-	firstMsg string
-	firstSig string
-	atomics  map[interface{}]VC
+	vars        map[interface{}]*varState
+	races       map[string]bool
+	firstMsg    string
+	firstSig    string
+	atomics     map[interface{}]VC
 	firstMapMsg string
 	firstMapSig string
 }
@@ -306,4 +306,66 @@ func MapAccess(m interface{}, write bool, site int32) {
 		vs.reads = append(vs.reads, me)
 	}
 	s.counters["map_accesses"]++
+}
+
+// MapDeepRead is the probe the instrumenter inserts before a statement that hands
+// a value to an encoder of the standard library (json.Marshal, fmt.Sprintf in
+// package scope): the encoder reads, by reflection and outside instrumented code,
+// every map reachable from the value, so each of them is recorded as read at this
+// point of the calling task.  The walk is bounded (depth 6, 256 containers).
+func MapDeepRead(v interface{}, site int32) {
+	s := cur
+	if s == nil || s.aborting || s.hb == nil || v == nil {
+		return
+	}
+	budget := 256
+	seen := map[uintptr]bool{}
+	var walk func(x reflect.Value, depth int)
+	walk = func(x reflect.Value, depth int) {
+		if depth > 6 || budget <= 0 || !x.IsValid() {
+			return
+		}
+		switch x.Kind() {
+		case reflect.Interface:
+			if !x.IsNil() {
+				walk(x.Elem(), depth)
+			}
+		case reflect.Ptr:
+			if !x.IsNil() && !seen[x.Pointer()] {
+				seen[x.Pointer()] = true
+				if x.Elem().Kind() == reflect.Map || x.Elem().Kind() == reflect.Slice || x.Elem().Kind() == reflect.Interface {
+					walk(x.Elem(), depth+1)
+				}
+			}
+		case reflect.Map:
+			if x.IsNil() || seen[x.Pointer()] || !x.CanInterface() {
+				return
+			}
+			seen[x.Pointer()] = true
+			budget--
+			MapAccess(x.Interface(), false, site)
+			s.counters["map_deep_reads"]++
+			ek := x.Type().Elem().Kind()
+			if ek != reflect.Interface && ek != reflect.Map && ek != reflect.Slice && ek != reflect.Ptr {
+				return
+			}
+			it := x.MapRange()
+			for it.Next() {
+				walk(it.Value(), depth+1)
+			}
+		case reflect.Slice:
+			if x.IsNil() {
+				return
+			}
+			ek := x.Type().Elem().Kind()
+			if ek != reflect.Interface && ek != reflect.Map && ek != reflect.Slice && ek != reflect.Ptr {
+				return
+			}
+			budget--
+			for i := 0; i < x.Len() && i < 64; i++ {
+				walk(x.Index(i), depth+1)
+			}
+		}
+	}
+	walk(reflect.ValueOf(v), 0)
 }
